@@ -83,9 +83,9 @@ def run_discovery(spas, filt_id=None, filt_addr=None, stalls=(), seed=0, handler
         closed = all(tr.closed for tr in loop.endpoints)
         listed = [(d.identifier, d.name, (d.ipaddress, d.port)) for d in (loc.spas or [])]
         await tm.gather()
-        return listed, closed, left, t1 - t0
-    listed, closed, left, dur = vloop.run(main)
+        return listed, closed, left, t1 - t0, bno[0]
+    listed, closed, left, dur, nb = vloop.run(main)
     ms = [e for e in log if e[0] == "M"]
     fin = ms[-1][1] if ms else None
     near = any(abs(e[2] - th) < 3e-6 for e in ms for th in (4.0, 10.0))
-    return {"labels": log, "listed": listed, "finished_us": fin, "closed": closed, "loc_tasks_left": left, "duration": dur, "skipped": near, "events": events}
+    return {"labels": log, "listed": listed, "finished_us": fin, "closed": closed, "loc_tasks_left": left, "duration": dur, "skipped": near, "events": events, "broadcasts": nb}
